@@ -9,25 +9,20 @@ SOURCES = ['src/opus_private.h', 'src/opus.c', 'src/opus_decoder.c', 'include/op
 REQUIRED_THEOREMS = ['OpusProps.C19.' + t for t in (
     'degenerate_noop', 'channel_independent', 'passthrough_any_arith', 'passthrough',
     'bounded_sign_preserved', 'bounded', 'sign_preserved', 'ramp_term_exact', 'bounded_rounded_stdmodel',
-    'gain_frame_condition', 'gain_transition_calls_gain0', 'gain_pass_event', 'gain_frame_condition_skeleton',
-    'gain_ctl_range')]
-UNPROVED = ['binary32, what IS proved (bounded_rounded_stdmodel): under the standard model of rounded arithmetic (each inner '
-            'operation exact*(1+d), |d| <= 2^-24) the excursion map with the code\'s boost stays in [0, 1] after the final '
-            'round-to-nearest, for every peak 1 < m <= 2 and every sample 0 <= x <= m; the code\'s constants satisfy the '
-            'hypothesis (boost = 4.0265 units of round-off, 4 + 16u needed). What is NOT proved: that IEEE binary32 operations '
-            'satisfy the standard model (literature; no underflow for x >= 1), and the continuation / ramp steps in rounded '
-            'arithmetic',
-            'bounded / sign_preserved in BINARY32 arithmetic: proved over every linearly ordered field (exact arithmetic, any '
-            'boost 0 <= eps < 1, whole call incl. continuation, ramp and the loop over excursions), not for rounded '
-            'arithmetic (Lean has no IEEE-754 error analysis); in binary32 both are searched on the implementation (S4, strict '
-            'predicates) and the binary32 instantiation of the same definitions is compared bit for bit with the code',
-            'gain, skeleton level: on OpusModel/DecSkel.lean (C01, read-only) with the transition call instantiated as the '
-            'code now makes it (OpusModel/GainSkel.lean withGain0) it is proved that the inner frame runs with gain 0, the '
-            'caller gets its gain back, the gain pass is one event on the frame\'s own buffer iff gain != 0, and all of C01\'s '
-            'frame results (return value audiosize, invariant, in-bounds, decode_gain unchanged) carry over. NOT proved: that '
-            'return value / final state / non-gain events are literally the same function of the inputs for gain g and gain '
-            '0 (would need a pass over every stage of the skeleton); DecSkel.transCall itself does not model the gain '
-            'clearing (C01\'s file). End to end this is searched (S4 gainsearch + mode-switching corpus)']
+    'bounded_rounded_excursion', 'gain_frame_condition', 'gain_transition_calls_gain0', 'gain_pass_event',
+    'integer_output_saturates', 'gain_ctl_range')]
+UNPROVED = ['binary32, what IS proved (bounded_rounded_stdmodel + bounded_rounded_excursion): the transcription instantiated with '
+            'rounded arithmetic (each + - * / exact*(1+d), |d| <= 2^-24; m-1 exact) computes, in the excursion branch, a value '
+            'whose pre-rounding last addition lies in [0, 1+(m-1)u], so a correctly rounded last addition gives <= 1, for '
+            'every peak 1 < m <= 2 and every sample 0 <= x <= m; the code\'s constants satisfy the hypothesis (boost = 4.0265 '
+            'units of round-off, 4 + 16u needed). NOT proved: that IEEE binary32 operations satisfy that standard model '
+            '(literature; no underflow for x >= 1; for x <= 1 the result is <= x), the mirror-image negative excursion as a '
+            'separate statement, and the continuation / ramp steps in rounded arithmetic',
+            'bounded / sign_preserved in BINARY32 arithmetic as whole-call statements: proved over every linearly ordered '
+            'field (exact arithmetic, any boost 0 <= eps < 1, whole call incl. continuation, ramp and the loop over '
+            'excursions); in binary32 both are searched on the implementation (S4, strict predicates, directed boost sweep) '
+            'and the binary32 instantiation of the same definitions is compared bit for bit with the code',
+            'gain factor: no theorem says gainOfF32 g ~ 10^(g/5120); see NOT_COVERED']
 RULE = ('exhaustive: degenerate argument combinations (N, C in -2..2, null pointers), every (N, C) with N <= 6, C <= 8 on three '
         'signal shapes over two consecutive frames, all ordered pairs of 25 special values (+-0, +-1, +-2, neighbours by one '
         'ulp, subnormals, huge) as 3- and 2-sample frames; OPUS_SET_GAIN accept/reject at the int16 boundary and the gain '
@@ -37,7 +32,14 @@ RULE = ('exhaustive: degenerate argument combinations (N, C in -2..2, null point
         'the frame-start special case) with N in 1..5760, C in 1..8, one to four consecutive frames sharing the memory, '
         'occasionally a carried-over non-zero coefficient and non-finite samples. A case is distinct by its '
         '(operation, outcome class) pair; classes: ignored / same / same-carry / clipped / clipped-carry.')
-NOT_COVERED = ['|out| <= 1 and sign preservation in binary32 arithmetic are not theorems (Lean has no IEEE-754 error analysis); '
+NOT_COVERED = ['the VALUE of the gain factor: gain_frame_condition says the gain touches only the gain pass, no theorem says the pass '
+               'multiplies by 10^(g/5120). The tie `softclip-gain` compares the model\'s gainOfF32 g with celt_exp2(6.48814081e-4f*g) '
+               'as bit patterns, both evaluated OUTSIDE the library (harness TU / Lean Float); what binds the library is S4: '
+               'celt_exp2(...) vs 10^(g/5120) in double for all 65536 gains within the calibrated 4e-6, and the library\'s float '
+               'output with gain g == gain-0 output * that factor, bit for bit (one binary32 multiplication per sample)',
+               'pass-through for binary32: passthrough_any_arith needs `Pass v` per sample, which Lean cannot derive for Float32 '
+               '(opaque); for floats the clause rests on the bit-exact tie and the strict S4 predicate',
+               '|out| <= 1 and sign preservation in binary32 arithmetic are not theorems (Lean has no IEEE-754 error analysis); '
                'they are theorems over every ordered field and are searched on the implementation in binary32',
                'the Lean `Float32` operations used by the executable instantiation are opaque to the kernel (they run the '
                'host FPU); that instantiation is compared bit for bit with the compiled C on every run, the theorems marked '
@@ -232,10 +234,12 @@ LEVEL_TEXT = ('proof: opus_pcm_soft_clip is transcribed once, generically over i
               'channel\'s memory, in-range input with cleared memory passes through unchanged (given the four comparisons the '
               'code makes on an in-range sample); over every linearly ordered field and every boost 0 <= eps < 1, for the whole '
               'call and any channel count: every output sample lies in [-1, 1], no sample changes sign (strict), the carried '
-              'coefficients stay within (1+eps)/4 (so the statement chains over frames), pass-through for |x| <= 1, the ramp term '
-              'is exactly 0 at the peak; gain frame condition and ctl range on the model. Binary32 rounding is not covered by '
-              'the field theorems: |out| <= 1 / sign in floats and the gain relations end to end are searched on the '
-              'implementation (S4, corpus of the two fixed defects first).')
+              'coefficients stay within (1+eps)/4; with rounded arithmetic in the standard model the excursion branch of the '
+              'same transcription stays <= 1 thanks to the 2^-22 boost. Gain: on C01\'s decoder skeleton (tied, gain pass = event '
+              'G) opus_decode_native run with two gains gives the same return value, packet offset, final state except '
+              'decode_gain, oracle-call counter and event log up to gain-pass events; transition calls run with gain 0; ctl '
+              'range; the 16-bit conversion after the gain never wraps (C13). Not theorems: binary32 rounding beyond the '
+              'standard-model excursion result, and the value of the gain factor (searched, S4).')
 LEVEL_NOTE = ('trusted: Lean kernel; Lean Float32 = host binary32 for the executable model only; correspondence harness and line '
               'protocol. Not proved: anything about rounded arithmetic (bounded / sign_preserved hold over ordered fields).')
 TECHNIQUE = 'Lean 4 theorems over a generic (any-arithmetic) transcription + ordered-field instance; bit-exact Float32 differential run'
